@@ -352,13 +352,16 @@ def eval_cases(ctx: Ctx, kernel: str, imports: list, cases: list, chunk: int = 4
         with open(path, "w") as fh:
             fh.write("From V Require Import base.Prelude base.Strs " + " ".join(imports) + ".\n")
             fh.write("Local Open Scope N_scope.\n" + preamble + "\n")
-            for i in bad_idx[:5]:
+            for i in bad_idx[:40]:
                 fh.write(f"Eval vm_compute in ({cases[i].model}).\n")
         _, rc, out = _run_case_file((path, wd))
         vals = [" ".join(x.split())[:400] for x in re.split(r"\n\s*=", "\n" + out)[1:]]
-        for n, i in enumerate(bad_idx[:5]):
+        for n, i in enumerate(bad_idx[:40]):
             show.append({"input": cases[i].meta, "impl": repr(cases[i].impl)[:400],
                          "model": vals[n] if n < len(vals) else "?"})
+        with open(os.path.join(WORK, f"last_disagreements_{ctx.prop}_{kernel}.json"), "w") as fh:
+            json.dump(show, fh, indent=1, default=str)
+        show = show[:5]
         ctx.broken.append(Broken("correspondence",
                                  f"kernel {kernel}: model and implementation differ on {len(bad_idx)} of {len(cases)} cases",
                                  json.dumps(show, default=str)[:3000], inputs=[(kernel, m_) for m_ in metas]))
